@@ -42,6 +42,30 @@ CLAIMED = {
         "Trusted: spec/insim9.spec (hand transcription of InSim.txt v9 / InSim-Relay, self-checked by an offset tiling checksum; ?unit/?opaque fields not asserted), CPython-derived codepage tables, the Debug-rendering observer. Exploration is sampled for multi-field interactions; one-hot coverage of single fields is complete.",
         "DESIGN.md §2.1, §3 C02",
     ),
+    "C05": (
+        "model-based testing of read histories over a scripted transport: complete enumeration of all partitions of short streams + proptest sessions with fault injection, blocking vs tokio vs reference model",
+        "Every segmentation of three 16/20-byte multi-frame streams (2^(n-1) partitions each, both modes) and generated sessions up to tens of KB (buffer reclaim cycles measured via the slice sizes offered to the transport) with injected WouldBlock/Interrupted/TimedOut, Pending polls, 90 s stalls on a paused clock and mid-frame EOF must produce exactly the model's result list on both connection types.",
+        "Trusted: the 30-line reference model of the read loop; the codec's verdict per isolated frame; the transport is simulated (real sockets only in C08/C18/C20).",
+        "DESIGN.md §2.4, §3 C05",
+    ),
+    "C06": (
+        "fault-injection on the write path of a scripted transport: complete enumeration of acceptance patterns for an 8-byte frame + proptest packet sequences and acceptance policies",
+        "For every way a transport may accept bytes piecewise (and defer with Pending), the bytes it accumulates must equal the concatenated frames and each write must return Ok, on the blocking and the tokio connection.",
+        "Trusted: scripted transport; Codec::encode as the definition of a packet's frame.",
+        "DESIGN.md §3 C06",
+    ),
+    "C07": (
+        "history invariant over the scripted transport's event trace: complete enumeration of TINY sub-types x request ids + proptest histories",
+        "Between two delivered results the connection must have written exactly one TINY_NONE frame iff the result is a keep-alive; all 30x256 TINY variants embedded between other packets, and generated histories with several keep-alives per read, split keep-alives, faults and piecewise write acceptance, on both connection types and both modes.",
+        "Trusted: scripted transport trace; independent keep-alive count over the byte stream.",
+        "DESIGN.md §3 C07",
+    ),
+    "C09": (
+        "complete enumeration of 256 versions x gate on/off x position x mode x segmentation on both connection types; proptest for non-version kinds and mixed sessions",
+        "A VER packet is delivered iff verification is off or its InSim version is 9, otherwise IncompatibleVersion(v); neighbours and all other kinds are unaffected by the gate.",
+        "Trusted: scripted transport; the gate's reference model restated in the harness.",
+        "DESIGN.md §3 C09",
+    ),
     "C10": (
         "complete table sweep + proptest round trips with a differential reference decoder built from CPython codepage tables",
         "All 60 973 reference table entries behind their markers and all 11x65536 byte pairs after every marker are enumerated completely; constructed multi-codepage wire strings, faithful round trips, unrepresentable characters and random bytes/Unicode are generated with proptest and judged by an independent reference decoder.",
